@@ -60,7 +60,13 @@ func runC02(c *core.Ctx) {
 		c.Inconclusive("reference cannot parse the generated schema: " + err.Error())
 		return
 	}
+	// a third of the schemas are bound to a second custom function table that gives some of the same names to other functions
+	alt := r.Chance(1, 3)
 	s, err := omni.NewSchema(w.schema)
+	if alt {
+		s, err = omni.NewSchemaAlt(w.schema)
+		c.Inc("schemas_bound_to_the_alternative_function_table")
+	}
 	if err != nil {
 		c.Inc("schema_rejected")
 		return
@@ -101,7 +107,7 @@ func runC02(c *core.Ctx) {
 		root := mon.RootOf(node)
 		mroot, fwd, back := ref.Mirror(root)
 		_ = mroot
-		ev := &ref.Evaluator{Decls: decls, Externals: w.ext, ToIDR: back, Stats: map[string]int{}}
+		ev := &ref.Evaluator{Decls: decls, Externals: w.ext, ToIDR: back, Stats: map[string]int{}, Alt: alt}
 		want, werr := ev.Eval(fwd[node])
 		for k, v := range ev.Stats {
 			c.Count("ref:"+k, int64(v))
